@@ -593,7 +593,8 @@ SCEN = {"hist": sc_hist}
 
 
 def run_item(cfg, tier):
-    from .refs_merge import merge_discharged
+    from .refs_merge import merge_discharged, prime_inspect_cache
+    prime_inspect_cache()
     return merge_discharged(symbolic_run(SCEN[cfg["kind"]], cfg, tier, max_paths=4))
 
 
